@@ -156,6 +156,16 @@ let compare_files hist_file obs_file =
             Printf.printf "{\"line\":%d,\"step\":%d,\"key\":\"%s\",\"expected\":\"%s\",\"observed\":\"%s\",\"history\":\"%s\"}\n"
               !lines i k ev (json_escape gv) hl
           end;
+          (* order-insensitive view of the queue snapshot (multiset of its words), key "qs":
+             what C01 is about is WHICH nodes are linked, not in which order *)
+          if k = "q" && ev <> gv then begin
+            let sorted x = String.concat " " (List.sort compare (words x)) in
+            if sorted ev <> sorted gv then begin
+              incr mism;
+              Printf.printf "{\"line\":%d,\"step\":%d,\"key\":\"qs\",\"expected\":\"%s\",\"observed\":\"%s\",\"history\":\"%s\"}\n"
+                !lines i ev (json_escape gv) hl
+            end
+          end;
           (* order-insensitive view of the wake list, reported under key "ws" *)
           if k = "w" && ev <> gv then begin
             let sorted x = String.concat " " (List.sort compare (words x)) in
